@@ -506,6 +506,9 @@ func faFind(f *ast.File, base int, s faSite, accept func(ast.Node) bool) *faLoc 
 		}
 	}
 	if found == nil {
+		if accept != nil {
+			panic(fmt.Sprintf("the catalogue instance at bytes [%d,%d) of the target is an instance of the '-' pattern by construction, but the real matcher matches no node there", s.lo, s.hi))
+		}
 		panic(fmt.Sprintf("harness: no node for site [%d,%d)", s.lo, s.hi))
 	}
 	// find the slot holding found.node
